@@ -24,11 +24,13 @@ P = [("pause",), ("dpause",), ("suspend", "none")]
 T = [("abort",), ("stop",), ("halt",)]
 _corpus = ["count2", "scan2", "nested", "monitor1", "fly1", "cleanup", "clearcp", "subs", "bare", "tworuns", "lifecycle", "tiny"]
 SPECS = {
-    "quick": [spec(k, P, bound=1) for k in _corpus] + [spec(k, P, bound=1, a=1) for k in ("scan2", "cleanup", "bare")] + [spec("tiny", P + T, bound=2)],
+    "quick": [spec(k, P, bound=1) for k in _corpus] + [spec(k, P, bound=1, a=1) for k in ("scan2", "cleanup", "bare")] + [spec("tiny", P + T, bound=2)]
+    + [spec("bare", [("pause",), ("suspend", "none")], bound=2, a=1)],  # a second request while the engine settles async devices for a pause
     "thorough": [spec(k, P, bound=1) for k in _corpus]
     + [spec(k, P, bound=1, a=1) for k in _corpus]
     + [spec(k, P + T, bound=2) for k in ("tiny", "lifecycle", "clearcp", "bare")]
-    + [spec("tiny", P + T, bound=2, a=1)],
+    + [spec("tiny", P + T, bound=2, a=1)]
+    + [spec(k, P + T, bound=2, a=1) for k in ("bare", "scan2")],
 }
 
 
